@@ -21,20 +21,28 @@ Definition pat_plain (p : option str) : bool :=
 Inductive mode := MSingle | MArray | MMap.
 
 (* the declarations whose every component is carried by the annotations *)
+Definition no_list (t : fty) : bool :=
+  match t with
+  | TInt _ _ None | TStr _ None | TBytes _ | TBool _ None | TEnum _ None | TKey _ _ None
+  | TFloat _ None | TDate _ None | TDecimal _ None | TTimestamp None | TAny None
+  | TObject _ | TOneof None => true
+  | _ => false
+  end.
+
 Definition rt_fty (m : mode) (t : fty) : bool :=
+  (* list rules of map values are not read back *)
+  (match m with MMap => no_list t | _ => true end) &&
   match m, t with
-  | MMap, TInt _ None None | MMap, TStr None None | MMap, TBytes None | MMap, TBool None None
-  | MMap, TFloat _ None | MMap, TDate None None | MMap, TDecimal None None | MMap, TTimestamp None
-  | MMap, TObject false => true
-  | MMap, _ => false
   | _, TStr (Some r) _ => pat_plain (sr_pat r)
   | _, TKey None e l =>
       (* without a format the key is recognised by its annotations only *)
       match l with Some _ => false | None => match m with MSingle => true | _ => is_some e end end
   | _, TKey (Some KUuid) _ _ | _, TKey (Some KId62) _ _ => true
   | _, TKey (Some _) _ _ => false          (* custom pattern / informal are not read back *)
-  | MArray, TDate (Some _) _ | MArray, TDecimal (Some _) _ => false   (* (j5.ext.v1.field) is the array's *)
-  | MArray, TObject true => false
+  | MSingle, _ => true
+  (* inside an array or a map there is no (j5.ext.v1.field) of the item *)
+  | _, TDate (Some _) _ | _, TDecimal (Some _) _ => false
+  | _, TObject true => false
   | _, _ => true
   end.
 
@@ -42,7 +50,7 @@ Definition rt_ok (d : prop) : bool :=
   match p_ty d with
   | PSingle t => rt_fty MSingle t
   | PArray _ _ t => rt_fty MArray t && negb (p_opt d)
-  | PMap t => rt_fty MMap t && negb (p_opt d)
+  | PMap _ t => rt_fty MMap t && negb (p_opt d)
   end.
 
 (* ---------------------------------------------------------------- helpers *)
@@ -129,114 +137,99 @@ Definition j5_seen (m : mode) (w : fieldw) : option j5ext :=
   match m with MSingle => fw_ext w | _ => None end.
 Definition list_seen (m : mode) (w : fieldw) : option (larm * lpay) :=
   match m with MMap => None | _ => fw_list w end.
-Definition vt_seen (m : mode) (w : fieldw) : option tyc :=
-  match m with MMap => None | _ => vt_of (fw_val w) end.
+Definition vt_seen (m : mode) (w : fieldw) : option tyc := vt_of (fw_val w).
+
+Lemma no_list_arm t env w :
+  no_list t = true -> write_field env t = Ok w -> fw_list w = None.
+Proof.
+  intros Hn Hw.
+  destruct t as [k r l0|r l0|r|r l0|r l0|f e l0|f64 l0|r l0|r l0|l0|l0|fl|l0]; cbn [no_list] in Hn;
+    try (destruct l0; [discriminate|]); cbn [write_field] in Hw;
+    try (apply obind_ok in Hw as [x [Hx Hw]]); inversion Hw; subst w; cbn [fw_list with_arm]; try reflexivity.
+  inversion Hx. reflexivity.
+Qed.
 
 Lemma field_rt env m t w :
   rt_fty m t = true -> write_field env t = Ok w ->
   read_field env (fw_kind w) (vt_seen m w) (list_seen m w) (j5_seen m w) (fw_key w) = Ok (norm_fty env t).
 Proof.
-  intros Hrt Hw.
+  intros Hrt Hw. unfold rt_fty in Hrt. apply andb_true_iff in Hrt as [Hnl Hrt].
+  assert (Hls : list_seen m w = fw_list w).
+  { destruct m; try reflexivity. cbn [list_seen]. symmetry. eapply no_list_arm; eauto. }
+  rewrite Hls. clear Hls Hnl. unfold vt_seen.
   destruct t as [k r l|r l|r|r l|r l|f e l|f64 l|r l|r l|l|l|fl|l]; cbn [write_field] in Hw.
   - (* integer *)
     apply obind_ok in Hw as [vo [Hv Hw]]. inversion Hw; subst w; clear Hw.
     cbn [fw_kind fw_val fw_list fw_ext fw_key].
-    assert (Hl : match m with MMap => l = None | _ => True end)
-      by (destruct m; auto; destruct r, l; try discriminate; reflexivity).
-    assert (Hr : read_int_rules k (vt_seen m (FW (int_pkind k) vo (Some XInteger) (with_arm (int_larm k) l) None))
-                 = match r with Some r => Some (norm_int r) | None => None end).
+    assert (Hr : read_int_rules k (vt_of vo) = match r with Some r => Some (norm_int r) | None => None end).
     { destruct r as [r|].
       - apply obind_ok in Hv as [c [Hc Hv]]. inversion Hv; subst vo.
-        destruct m; try discriminate;
-          cbn [vt_seen vt_of fw_val only_ty c_ty]; apply read_write_int; assumption.
-      - inversion Hv; subst. destruct m; reflexivity. }
-    destruct k; cbn [int_pkind read_field norm_fty int_larm] in *; rewrite Hr;
-      destruct m; cbn [list_seen fw_list]; rewrite ?get_list_with_arm; try reflexivity;
-      subst l; reflexivity.
+        cbn [vt_of only_ty c_ty]. apply read_write_int; assumption.
+      - inversion Hv; subst. reflexivity. }
+    destruct k; cbn [int_pkind read_field norm_fty int_larm] in *; rewrite Hr, get_list_with_arm; reflexivity.
   - (* string *)
     inversion Hw; subst w; clear Hw. cbn [fw_kind fw_val fw_list fw_ext fw_key read_field].
-    destruct m.
-    + cbn [vt_seen list_seen j5_seen fw_val fw_list fw_ext vt_of]. unfold read_string.
-      destruct r as [r|]; cbn [only_ty c_ty vt_of].
-      * cbn [rt_fty] in Hrt. unfold pat_plain in Hrt.
-        destruct (sr_pat r) as [p|] eqn:Ep.
-        -- apply andb_true_iff in Hrt as [Hrt H3]. apply andb_true_iff in Hrt as [H1 H2].
-           apply negb_true_iff in H1, H2, H3. rewrite H1, H2, H3. cbn [orb obind].
-           destruct l as [p0|]; cbn; destruct r; cbn in *; subst; reflexivity.
-        -- cbn [obind]. destruct l as [p0|]; cbn; destruct r; cbn in *; subst; reflexivity.
-      * cbn [obind]. destruct l; reflexivity.
-    + cbn [vt_seen list_seen j5_seen fw_val fw_list fw_ext vt_of]. unfold read_string.
-      destruct r as [r|]; cbn [only_ty c_ty vt_of].
-      * cbn [rt_fty] in Hrt. unfold pat_plain in Hrt.
-        destruct (sr_pat r) as [p|] eqn:Ep.
-        -- apply andb_true_iff in Hrt as [Hrt H3]. apply andb_true_iff in Hrt as [H1 H2].
-           apply negb_true_iff in H1, H2, H3. rewrite H1, H2, H3. cbn [orb obind].
-           destruct l as [p0|]; cbn; destruct r; cbn in *; subst; reflexivity.
-        -- cbn [obind]. destruct l as [p0|]; cbn; destruct r; cbn in *; subst; reflexivity.
-      * cbn [obind]. destruct l; reflexivity.
-    + destruct r, l; try discriminate. reflexivity.
+    assert (Hp : match r with Some r => pat_plain (sr_pat r) = true | None => True end)
+      by (destruct r; [destruct m; exact Hrt|exact I]).
+    destruct m; cbn [j5_seen fw_ext]; unfold read_string;
+      (destruct r as [r|]; cbn [only_ty c_ty vt_of];
+       [ unfold pat_plain in Hp; destruct (sr_pat r) as [p|] eqn:Ep;
+         [ apply andb_true_iff in Hp as [Hp H3]; apply andb_true_iff in Hp as [H1 H2];
+           apply negb_true_iff in H1, H2, H3; rewrite H1, H2, H3; cbn [orb obind];
+           destruct l as [p0|]; cbn; destruct r; cbn in *; subst; reflexivity
+         | cbn [obind]; destruct l as [p0|]; cbn; destruct r; cbn in *; subst; reflexivity ]
+       | cbn [obind]; destruct l; reflexivity ]).
   - (* bytes *)
-    inversion Hw; subst w; clear Hw. cbn [fw_kind read_field norm_fty].
-    destruct m; [| |destruct r; [discriminate|reflexivity]];
-      cbn [vt_seen fw_val vt_of]; destruct r as [[mn mx]|]; reflexivity.
+    inversion Hw; subst w; clear Hw. cbn [fw_kind read_field norm_fty fw_val vt_of].
+    destruct r as [[mn mx]|]; reflexivity.
   - (* bool *)
-    inversion Hw; subst w; clear Hw. cbn [fw_kind read_field norm_fty fw_list].
-    destruct m; [| |destruct r, l; try discriminate; reflexivity];
-      cbn [vt_seen list_seen fw_val fw_list vt_of]; rewrite get_list_with_arm;
-      destruct r as [[c|]|]; reflexivity.
+    inversion Hw; subst w; clear Hw. cbn [fw_kind read_field norm_fty fw_list fw_val vt_of].
+    rewrite get_list_with_arm. destruct r as [[c|]|]; reflexivity.
   - (* enum *)
     apply obind_ok in Hw as [io [Hio Hw]]. inversion Hw; subst w; clear Hw.
-    destruct m; [| |discriminate];
-      cbn [fw_kind read_field norm_fty vt_seen list_seen fw_val fw_list vt_of only_ty c_ty];
-      rewrite get_list_with_arm;
-      (destruct r as [r|];
-       [ apply obind_ok in Hio as [zi [Hzi Hio]]; apply obind_ok in Hio as [zn [Hzn Hio]];
-         inversion Hio; subst io; cbn [fst snd];
-         rewrite (names_in_mapped env _ _ Hzi), (names_notin_mapped env _ _ Hzn); reflexivity
-       | inversion Hio; subst io; reflexivity ]).
+    cbn [fw_kind read_field norm_fty fw_val fw_list vt_of only_ty c_ty].
+    rewrite get_list_with_arm.
+    destruct r as [r|].
+    + apply obind_ok in Hio as [zi [Hzi Hio]]. apply obind_ok in Hio as [zn [Hzn Hio]].
+      inversion Hio; subst io. cbn [fst snd].
+      rewrite (names_in_mapped env _ _ Hzi), (names_notin_mapped env _ _ Hzn). reflexivity.
+    + inversion Hio; subst io. reflexivity.
   - (* key *)
     apply obind_ok in Hw as [lst [Hl Hw]]. inversion Hw; subst w; clear Hw.
     destruct id62_not_wellknown as [Hd Hn].
     cbn [fw_kind read_field fw_val fw_list fw_ext fw_key norm_fty].
-    destruct m; [| |destruct f as [[| | |]|]; discriminate];
-      cbn [vt_seen list_seen j5_seen fw_val fw_list fw_ext vt_of];
-      (destruct f as [[|p| |]|]; try discriminate;
-       [ (* uuid *)
-         destruct l as [p0|]; inversion Hl; subst lst; unfold read_string; cbn;
-         destruct e as [[[[[|]|pp ee]|] tn]|]; reflexivity
-       | (* id62 *)
-         destruct l as [p0|]; inversion Hl; subst lst; unfold read_string;
-         cbn [only_ty c_ty vt_of]; rewrite Hd, Hn, str_eqb_refl; cbn;
-         destruct e as [[[[[|]|pp ee]|] tn]|]; reflexivity
-       | (* no format *)
-         destruct l as [p0|]; [discriminate|]; inversion Hl; subst lst; unfold read_string; cbn;
-         destruct e as [[[[[|]|pp ee]|] tn]|]; try discriminate; reflexivity ]).
+    destruct f as [[|p| |]|]; try (destruct m; discriminate).
+    + (* uuid *)
+      destruct l as [p0|]; inversion Hl; subst lst; unfold read_string; cbn;
+        destruct e as [[[[[|]|pp ee]|] tn]|]; destruct m; reflexivity.
+    + (* id62 *)
+      destruct l as [p0|]; inversion Hl; subst lst; unfold read_string;
+        cbn [only_ty c_ty vt_of]; rewrite Hd, Hn, str_eqb_refl; cbn;
+        destruct e as [[[[[|]|pp ee]|] tn]|]; destruct m; reflexivity.
+    + (* no format *)
+      destruct l as [p0|]; [destruct m; discriminate|]. inversion Hl; subst lst. unfold read_string. cbn.
+      destruct e as [[[[[|]|pp ee]|] tn]|]; destruct m; try discriminate; reflexivity.
   - (* float *)
     inversion Hw; subst w; clear Hw. cbn [fw_kind fw_list].
-    destruct m, f64; cbn [read_field list_seen fw_list norm_fty]; rewrite ?get_list_with_arm; try reflexivity;
-      destruct l; try discriminate; reflexivity.
+    destruct f64; cbn [read_field norm_fty]; rewrite get_list_with_arm; reflexivity.
   - (* date *)
     inversion Hw; subst w; clear Hw. cbn [fw_kind fw_list fw_ext read_field norm_fty].
-    destruct m; cbn [list_seen j5_seen fw_list fw_ext]; rewrite ?get_list_with_arm;
-      destruct r; try discriminate; try reflexivity; destruct l; try discriminate; reflexivity.
+    rewrite get_list_with_arm. destruct m, r; try discriminate; reflexivity.
   - (* decimal *)
     inversion Hw; subst w; clear Hw. cbn [fw_kind fw_list fw_ext read_field norm_fty].
-    destruct m; cbn [list_seen j5_seen fw_list fw_ext]; rewrite ?get_list_with_arm;
-      destruct r; try discriminate; try reflexivity; destruct l; try discriminate; reflexivity.
+    rewrite get_list_with_arm. destruct m, r; try discriminate; reflexivity.
   - (* timestamp *)
-    inversion Hw; subst w; clear Hw. cbn [fw_kind fw_list fw_val read_field norm_fty].
-    destruct m; cbn [vt_seen list_seen fw_val fw_list vt_of]; rewrite ?get_list_with_arm; try reflexivity.
-    destruct l; [discriminate|reflexivity].
+    inversion Hw; subst w; clear Hw. cbn [fw_kind fw_list fw_val read_field norm_fty vt_of].
+    rewrite get_list_with_arm. reflexivity.
   - (* any *)
     inversion Hw; subst w; clear Hw. cbn [fw_kind fw_list fw_ext read_field norm_fty].
-    destruct m; cbn [list_seen j5_seen fw_list fw_ext]; rewrite ?get_list_with_arm; try reflexivity.
-    discriminate.
+    rewrite get_list_with_arm. destruct m; reflexivity.
   - (* object *)
     inversion Hw; subst w; clear Hw. cbn [fw_kind fw_ext read_field norm_fty].
     destruct m, fl; try discriminate; reflexivity.
   - (* oneof *)
     inversion Hw; subst w; clear Hw. cbn [fw_kind fw_list read_field norm_fty].
-    destruct m; cbn [list_seen fw_list]; rewrite ?get_list_with_arm; try reflexivity. discriminate.
+    rewrite get_list_with_arm. reflexivity.
 Qed.
 
 (* ---------------------------------------------------------------- one property *)
@@ -284,7 +277,7 @@ Proof.
   destruct d as [name req opt ty desc]. unfold rt_ok in Hrt. cbn [p_ty p_opt] in Hrt.
   unfold write_prop in Hw. cbn [p_name p_req p_opt p_ty p_desc] in Hw.
   apply obind_ok in Hw as [w [Hwf Hw]].
-  destruct ty as [t|r sf t|t].
+  destruct ty as [t|r sf t|r t].
   - (* singular *)
     pose proof (write_field_primary_ty env t w Hwf) as Hprim.
     assert (Hw' : (if opt && (req || is_primary_ty t) then Err "cannot be both required and optional"
@@ -300,7 +293,7 @@ Proof.
     destruct (fw_kind w) eqn:Ek; try (exfalso; eapply Hk; reflexivity);
       rewrite <- Ek;
       pose proof (field_rt env MSingle t w Hrt Hwf) as Hf;
-      cbn [vt_seen list_seen j5_seen] in Hf;
+      unfold vt_seen in Hf; cbn [list_seen j5_seen] in Hf;
       replace (match (if required then set_required (fw_val w) else fw_val w) with
                | Some c => c_ty c | None => None end) with (vt_of (fw_val w))
         by (destruct required; [rewrite <- vt_set_required|]; reflexivity);
@@ -324,7 +317,7 @@ Proof.
     cbn [fo_kind fo_rep fo_val fo_list fo_ext fo_key fo_json fo_number fo_desc fo_opt].
     pose proof (kind_not_map env t wi Hwt) as Hk.
     pose proof (field_rt env MArray t wi Hrt Hwt) as Hf.
-    cbn [vt_seen list_seen j5_seen] in Hf.
+    unfold vt_seen in Hf; cbn [list_seen j5_seen] in Hf.
     destruct (fw_kind wi) eqn:Ek; try (exfalso; eapply Hk; reflexivity);
       lazy iota beta;
       unfold norm_prop; cbn [p_name p_req p_opt p_ty p_desc]; fold required; rewrite Hwt;
@@ -334,14 +327,16 @@ Proof.
   - (* map *)
     apply andb_true_iff in Hrt as [Hrt Hopt]. apply negb_true_iff in Hopt. subst opt.
     apply obind_ok in Hwf as [wi [Hwt Hwa]]. inversion Hwa; subst w; clear Hwa.
-    cbn [fw_key fw_kind fw_val fw_ext fw_list andb orb] in Hw.
+    cbn [wrap_map fw_key fw_kind fw_val fw_ext fw_list andb orb] in Hw.
     rewrite orb_false_r in Hw. inversion Hw; subst o; clear Hw.
     unfold read_prop.
     cbn [fo_kind fo_rep fo_val fo_list fo_ext fo_key fo_json fo_number fo_desc fo_opt].
     pose proof (field_rt env MMap t wi Hrt Hwt) as Hf.
-    cbn [vt_seen list_seen j5_seen] in Hf. rewrite Hf. cbn [obind].
-    unfold norm_prop. cbn [p_name p_req p_opt p_ty p_desc]. rewrite orb_false_r.
-    destruct req; reflexivity.
+    unfold vt_seen in Hf; cbn [list_seen j5_seen] in Hf.
+    unfold norm_prop. cbn [p_name p_req p_opt p_ty p_desc]. rewrite orb_false_r. rewrite Hwt.
+    destruct req; destruct r as [[mn mx]|]; destruct (fw_val wi) as [c|] eqn:Ev;
+      cbn [set_required is_some orb only_ty c_ty c_req mr_min mr_max vt_of] in *;
+      rewrite Hf; reflexivity.
 Qed.
 
 (* ---------------------------------------------------------------- objects *)
